@@ -29,8 +29,9 @@ type gatedCase struct {
 	Name    string              `json:"name"`
 	Batch   int                 `json:"batch"`
 	Tables  []string            `json:"tables"`
+	Init    []string            `json:"init"`    // tables created before the goroutines start (nil: all); the others are created by "create" ops
 	Sched   []schedStep         `json:"sched"`   // nil: seeded random schedule
-	Prog    map[string][]gEntry `json:"prog"`    // inserter -> entries (derived from Sched when nil)
+	Prog    map[string][]gEntry `json:"prog"`    // inserter -> ops: entries to insert, tables to create (derived from Sched when nil)
 	Flushes int                 `json:"flushes"` // explicit Flush calls of process "f"
 	Outcome string              `json:"outcome"` // the model's prediction (informational)
 }
@@ -64,6 +65,9 @@ func (g *gatedCase) fill() {
 		if s.L == "ins" {
 			g.Prog[s.P] = append(g.Prog[s.P], gEntry{ID: s.ID, Tab: s.T, Loc: s.Loc})
 		}
+		if s.L == "create" {
+			g.Prog[s.P] = append(g.Prog[s.P], gEntry{Create: true, Tab: s.T})
+		}
 		if s.P == "f" && s.L == "call" {
 			g.Flushes++
 		}
@@ -87,13 +91,17 @@ func runGated(g gatedCase, run int, dir string, rng *rand.Rand) ([]map[string]an
 	}
 	c := newCtl(false)
 	rec := dr.NewDataRecorder(base)
-	for _, t := range g.Tables {
+	if g.Init == nil {
+		g.Init = g.Tables
+	}
+	for _, t := range g.Init {
 		rec.CreateTable(t, GE{})
+		c.created[t] = true
 	}
 	dr.VerifSetBatchSize(rec, g.Batch)
 	dr.VerifGate = c.gate
 	defer func() { dr.VerifGate = nil }()
-	c.log = append(c.log, map[string]any{"e": "start", "run": run, "batch": g.Batch})
+	c.log = append(c.log, map[string]any{"e": "start", "run": run, "batch": g.Batch, "init": g.Init})
 	inserted := map[string][]any{}
 	for _, name := range insNames {
 		es, ok := g.Prog[name]
@@ -101,13 +109,21 @@ func runGated(g gatedCase, run int, dir string, rng *rand.Rand) ([]map[string]an
 			continue
 		}
 		for _, e := range es {
-			inserted[e.Tab] = append(inserted[e.Tab], GE{ID: e.ID, Who: name, Loc: e.Loc, Skip: e.ID * 7})
+			if !e.Create {
+				inserted[e.Tab] = append(inserted[e.Tab], GE{ID: e.ID, Who: name, Loc: e.Loc, Skip: e.ID * 7})
+			}
 		}
 		name := name
 		c.spawn(name, func(p *proc) {
 			for i := range es {
 				e := es[i]
 				c.setCur(p, &e)
+				if e.Create {
+					c.gate("create") // the harness's own gate: CreateTable takes the mutex at once
+					rec.CreateTable(e.Tab, GE{})
+					c.setCreated(e.Tab)
+					continue
+				}
 				rec.InsertData(e.Tab, GE{ID: e.ID, Who: name, Loc: e.Loc, Skip: e.ID * 7})
 			}
 		})
@@ -160,6 +176,23 @@ func runGated(g gatedCase, run int, dir string, rng *rand.Rand) ([]map[string]an
 			return end(empty, [][2]any{}), res
 		}
 		ps := c.parked()
+		waiting := len(ps)
+		ps = c.eligible(ps)
+		if len(ps) == 0 && waiting > 0 {
+			// everybody parked wants to insert into a table that its creator (waiting for the mutex) has not made yet
+			idle++
+			if idle == 1 {
+				idleSince = time.Now()
+			}
+			if time.Since(idleSince) < 30*time.Second {
+				time.Sleep(100 * time.Microsecond)
+				continue
+			}
+			res.Hang = true
+			c.abort()
+			closeDB(rec)
+			return end(empty, [][2]any{}), res
+		}
 		if len(ps) == 0 {
 			if c.allFinished() {
 				if closing {
@@ -214,8 +247,19 @@ func runGated(g gatedCase, run int, dir string, rng *rand.Rand) ([]map[string]an
 		res.DivergedAt, res.Followed = pos, false
 	}
 	dr.VerifGate = nil
-	res.Verdict = judge(file, tables, inserted)
-	rows, locs, err := rawRows(file, tables)
+	var made []tableSpec // a table nobody created does not exist in the file: no rows
+	for _, t := range tables {
+		if c.isCreated(t.Name) {
+			made = append(made, t)
+		}
+	}
+	res.Verdict = judge(file, made, inserted)
+	rows, locs, err := rawRows(file, made)
+	for _, t := range tables {
+		if rows != nil && rows[t.Name] == nil {
+			rows[t.Name] = [][2]int64{}
+		}
+	}
 	if err != nil {
 		res.CloseErr = "raw read: " + err.Error()
 		return end(empty, [][2]any{}), res
@@ -252,6 +296,21 @@ func randomCase(rng *rand.Rand, k int, tables []string) gatedCase {
 		}
 	}
 	g.Flushes = rng.Intn(4)
+	if len(tables) > 1 && rng.Intn(3) > 0 {
+		// the last table is created by one of the inserters somewhere in its program (others wait for it before they insert into it)
+		late := tables[len(tables)-1]
+		g.Init = tables[:len(tables)-1]
+		who := insNames[rng.Intn(nIns)]
+		at := rng.Intn(len(g.Prog[who]) + 1)
+		for i, e := range g.Prog[who] {
+			if e.Tab == late && i < at {
+				at = i
+			}
+		}
+		ops := append([]gEntry{}, g.Prog[who][:at]...)
+		ops = append(ops, gEntry{Create: true, Tab: late})
+		g.Prog[who] = append(ops, g.Prog[who][at:]...)
+	}
 	return g
 }
 
